@@ -77,6 +77,36 @@ class Slot:
         self.scalar = False      # a Record / number / None: a Python scalar, not a layout, for the user
 
 
+_ADDR = None
+
+
+def structure_text(node, h):
+    """tostring() without the buffer addresses and without NumpyArray data (floats print NaN payloads etc.; values are
+    compared through the walker): what is left are the index entries of every node"""
+    global _ADDR
+    import re
+    if _ADDR is None:
+        _ADDR = (re.compile(r' at="0x[0-9a-f]+"'), re.compile(r'<NumpyArray [^>]*>'))
+    try:
+        if node.isscalar(h):
+            return None
+        txt = node.text(h, 2).decode("latin-1")
+    except NodeError:
+        return None
+    if len(txt) > 200000:
+        return None
+    txt = _ADDR[0].sub("", txt)
+    return _ADDR[1].sub("<NumpyArray>", txt)
+
+
+def first_difference(a, b):
+    la, lb = a.split("\n"), b.split("\n")
+    for x, y in zip(la, lb):
+        if x != y:
+            return x.strip()[:300], y.strip()[:300]
+    return "(%d lines)" % len(la), "(%d lines)" % len(lb)
+
+
 def read_value(node, h):
     raw = node.dump(h)
     if len(raw) > 400000:
@@ -315,10 +345,12 @@ def execute(node, case, rec, opts):
             alt = (rec.perturb ^ 0xFF) or 0x5A
             node.perturb(alt)
             tmp2 = []
+            t2 = None
             try:
                 h2 = O.apply(node, op, slots[i].h, slot_handle, tmp2)
                 try:
                     v2 = ("value", read_value(node, h2))
+                    t2 = structure_text(node, h2)
                 except NodeError as x:
                     v2 = ("unreadable", x.cls)
                 node.drop(h2)
@@ -335,6 +367,15 @@ def execute(node, case, rec, opts):
             except NodeError as x:
                 v1 = ("unreadable", x.cls)
             same_outcome = v1[0] == v2[0] and (v1[0] != "value" or vm.same(v1[1], v2[1]))
+            if same_outcome and v1[0] == "value" and t2 is not None:
+                # equal values are not enough: every index entry that belongs to the result (an offset of a zero-length
+                # list array is never read by the walker) must be the same under both fill bytes too
+                t1 = structure_text(node, h)
+                if t1 is not None and t1 != t2:
+                    raise Violation("memory", "result_structure_depends_on_allocator_fill",
+                                    {"event": ev, "facts": operand_facts(node, slots[i].h, op),
+                                     "fill_%02x" % rec.perturb: first_difference(t1, t2)[0],
+                                     "fill_%02x" % alt: first_difference(t1, t2)[1]}, at=t)
             rec.probe("fill_byte_crosschecks")
             if not same_outcome:
                 raise Violation("memory", "result_depends_on_allocator_fill",
